@@ -122,7 +122,7 @@ Proof.
   destruct Hy as (s & r & EY & A1 & A2 & A3 & A4 & A5 & A6).
   unfold class_stmt_head.
   assert (Hck : ckey_loop mods0 (map ktok key ++ mkTk T_NAME name :: Y) = Some (DOk (mods0, key, Some name, Y))).
-  { rewrite EY. destruct Hk as [E|[E|E]]; rewrite E; cbn [map app ckey_loop]; unfold key_name; cbv beta; rewrite A1; reflexivity. }
+  { rewrite EY. destruct Hk as [E|[E|E]]; rewrite E; cbn [map app ckey_loop]; unfold key_name, name_part; cbv beta; change (memN (kty (mkTk T_NAME name)) attribute_start_tokens) with false; cbv iota; change (is T_DBL_COLON (mkTk T_NAME name)) with false; change (is T_NAME (mkTk T_NAME name)) with true; cbv iota; rewrite A1; reflexivity. }
   rewrite Hck.
   assert (Hsl : spec_loop mods0 (Some 0) Y = DOk (mods0, 0, Y)).
   { rewrite EY. cbn [spec_loop]. rewrite A2, A3, A4. reflexivity. }
